@@ -43,7 +43,7 @@ func c11Gen(t *rapid.T) c11Case {
 				r.Args[0] = k
 			}
 			cs.Reqs = append(cs.Reqs, r)
-			c.Spec.Plans = append(c.Spec.Plans, Plan{Key: k, Reply: Bin(genErrorLine().Draw(t, "err"))})
+			c.Spec.Plans = append(c.Spec.Plans, Plan{Key: k, Reply: Bin(genErrorLine().Draw(t, "err")), DelayMs: rapid.SampledFrom([]int{0, 0, 3, 12}).Draw(t, "errdelay")})
 		default: // split request with a non-empty subset of failing fragments
 			r := genMultiKeyReq(t, 10, []string{"mget", "del", "mset"})
 			name := r.lname()
